@@ -219,10 +219,13 @@ def one_case(args):
     sp = os.path.join(workdir, name + ".script")
     open(sp, "w").write(script_text(mgrs, merged))
     res = dict(name=name, mgrs=mgrs, mode=mode, seed=seed, hard=[], soft=0, calls=0, crashed=None, changed=set(), script=sp, first_soft=None)
-    if mode == "interleave":
-        rc, out, err = run([exe, "--items", items_path, "--script", sp, "--mode", "interleave"])
+    # "<mode>+reloc": every manager is used through a relocated copy of its idle block (k6_threads --reloc); the solo
+    # runs use the plain managers, so a relocated manager must also behave exactly like one that never moved
+    reloc = ["--reloc"] if mode.endswith("+reloc") else []
+    if mode.startswith("interleave"):
+        rc, out, err = run([exe, "--items", items_path, "--script", sp, "--mode", "interleave"] + reloc)
     else:
-        rc, out, err = run([exe, "--items", items_path, "--script", sp, "--mode", "threads", "--seed", str(seed)])
+        rc, out, err = run([exe, "--items", items_path, "--script", sp, "--mode", "threads", "--seed", str(seed)] + reloc)
     if rc != 0:
         res["crashed"] = "together run (%s) exit %s: %s" % (mode, rc, err[-200:])
         return res
@@ -234,7 +237,7 @@ def one_case(args):
             res["crashed"] = "solo run of manager %d exit %s: %s" % (m, rc2, err2[-200:])
             return res
         alone = transcripts(out2).get(m, [])
-        h, s = cmp_transcripts(tog.get(m, []), alone, mode == "threads")
+        h, s = cmp_transcripts(tog.get(m, []), alone, mode.startswith("threads"))
         res["calls"] += len(alone)
         res["hard"] += ["mgr %d (%s:f%d): %s" % (m, mgrs[m][0], mgrs[m][1], x) for x in h]
         res["soft"] += len(s)
@@ -258,7 +261,7 @@ def cases(rng, tier, valid, invalid):
         combos.append(tuple(rng.choice(VARIANTS) for _ in range(k)))
     for ci, mg in enumerate(combos):
         hs = [history(rng, nops // 2 + rng.below(nops), valid, invalid, "errors" if (ci + i) % 5 == 4 else "mixed") for i in range(len(mg))]
-        out.append(("il%d" % ci, list(mg), hs, interleave(rng, hs), "interleave", 0))
+        out.append(("il%d" % ci, list(mg), hs, interleave(rng, hs), "interleave+reloc" if ci % 3 == 1 else "interleave", 0))
     # (b) threads
     for ti in range(10 if tier == "quick" else 80):
         k = [2, 3, 4, 6, 8, 12, 16][ti % 7]
@@ -268,7 +271,7 @@ def cases(rng, tier, valid, invalid):
         # spuriously failed self test leaves a job pointing into a dead stack frame queued, and flushing it corrupts memory
         hs = [[o for o in h if o != "I"] for h in hs]
         merged = [(m, o) for m in range(k) for o in hs[m]]
-        out.append(("th%d" % ti, mg, hs, merged, "threads", rng.next() % 100000))
+        out.append(("th%d" % ti, mg, hs, merged, "threads+reloc" if ti % 3 == 1 else "threads", rng.next() % 100000))
     # (c) the same algorithm on every thread at the same time: all threads run the same sequence of suites, one suite
     # after the other, many jobs each - a scratch buffer of an algorithm that is not reached through the manager or the
     # stack is then used by several threads at once
@@ -288,7 +291,7 @@ def cases(rng, tier, valid, invalid):
             seq += ["J %d" % it] * reps + ["F"] * 18
         hs = [list(seq) for _ in range(k)]
         merged = [(m, o) for m in range(k) for o in hs[m]]
-        out.append(("same%d" % (ci // per_case), mg, hs, merged, "threads", rng.next() % 100000))
+        out.append(("same%d" % (ci // per_case), mg, hs, merged, "threads+reloc" if (ci // per_case) % 2 else "threads", rng.next() % 100000))
     return out
 
 
@@ -499,9 +502,10 @@ def main(tier, seed):
         "rule": "one evaluation = one multi-manager history (random interleaving in one thread, or one thread per manager under a randomised "
                 "schedule) whose per-manager transcripts are compared call by call with the solo runs of the same managers; distinct = distinct "
                 "(variant tuple, mode)",
-        "api_calls_compared": ncalls, "interleaved_cases": sum(1 for r in results if r["mode"] == "interleave"),
-        "threaded_cases": sum(1 for r in results if r["mode"] == "threads"),
-        "thread_counts": sorted(set(len(r["mgrs"]) for r in results if r["mode"] == "threads")),
+        "api_calls_compared": ncalls, "interleaved_cases": sum(1 for r in results if r["mode"].startswith("interleave")),
+        "threaded_cases": sum(1 for r in results if r["mode"].startswith("threads")),
+        "relocated_manager_cases": sum(1 for r in results if r["mode"].endswith("+reloc")),
+        "thread_counts": sorted(set(len(r["mgrs"]) for r in results if r["mode"].startswith("threads"))),
         "variant_pairs_covered": len(set(tuple(map(tuple, r["mgrs"])) for r in results if len(r["mgrs"]) == 2)),
         "variants": ["%s:f%d" % v for v in VARIANTS], "witness": W, "concurrent_creation": IR, "concurrent_set_session": SR, "globals_changed_at_runtime": sorted(allchanged),
         "writable_symbols": [(s["name"], s["section"], s["size"]) for s in gj["syms"]], "writable_gaps": gj["gaps"],
